@@ -6,7 +6,7 @@ import common, docrun, gen, pool, docs, drv
 M = 2 ** 256
 THEOREMS = ["Plain.hexVal_hexStr", "Plain.decVal_decStr", "Plain.hexVal_zeros", "Plain.decVal_zeros", "Plain.hexVal_0x",
             "Plain.hexVal_hexStrU", "Plain.spelling_value", "Plain.parse_step", "Plain.parse_print", "Plain.opOf_num_value",
-            "Json.toJson_build", "Json.buildAll_toJson", "Json.roundtrip_stable", "Json.buildAll_toJson_off"]
+            "Json.toJson_build", "Json.buildAll_toJson", "Json.roundtrip_stable", "Json.buildAll_toJson_off", "Json.buildBlocks_flatten", "Json.blocks_roundtrip"]
 
 PLAIN_OPS = ["ADD", "MUL", "SUB", "MSTORE", "MLOAD", "SSTORE", "SLOAD", "KECCAK256", "JUMP", "JUMPI", "JUMPDEST", "STOP", "RETURN",
              "REVERT", "POP", "DUP1", "DUP16", "SWAP1", "SWAP16", "ISZERO", "CALLVALUE", "CALLDATALOAD", "GAS", "LOG2", "NOT", "EQ"]
@@ -148,14 +148,21 @@ def run(tier):
                 c["item-sections-outside-the-model"] += 1
                 continue
             jreqs.append("JSONITEMS\t%s\t%s" % ("1" if t["push0"] else "0", sec["items"]))
-            jmeta.append((t, sec))
-    for o, (t, sec) in zip(drv.batch(jreqs), jmeta):
-        c["item-sections"] += 1
-        c["items-read-and-written"] += sec["n"]
+            jmeta.append((t, sec, "real"))
+            if "real_blocks" in sec:
+                jreqs.append("JSONBLOCKS\t%s\t%s" % ("1" if t["push0"] else "0", sec["items"]))
+                jmeta.append((t, sec, "real_blocks"))
+    for o, (t, sec, which) in zip(drv.batch(jreqs), jmeta):
+        if which == "real":
+            c["item-sections"] += 1
+            c["items-read-and-written"] += sec["n"]
+        else:
+            c["sections-cut-into-blocks"] += 1
+            c["blocks-compared"] += o.count("\x1d") + 1 if o and o != "raise" else 0
         if o.startswith("error"):
             raise common.MachineryError("driver JSONITEMS: " + o[:200])
-        if o != sec["real"]:
-            a, b = o.split("\x1e"), sec["real"].split("\x1e")
+        if o != sec[which]:
+            a, b = o.replace("\x1d", "\x1e|\x1e").split("\x1e"), sec[which].replace("\x1d", "\x1e|\x1e").split("\x1e")
             k = next((i for i in range(min(len(a), len(b))) if a[i] != b[i]), min(len(a), len(b)))
             violations.append({"kind": "item-reader-differs-from-model", "input": "%s %s" % (t["name"], "/".join(sec["path"])), "no_failing_input": True,
                                "what": "correspondence Models/JsonItem.lean <-> build_asm_bytecode/to_json broken on %s section %s (push0=%s) near element %d: "
